@@ -32,11 +32,12 @@ theorem newCapacity_eq_capStep (cmp : Nat → Nat → Int) (grow : Nat → Nat) 
   · rw [if_pos (by omega)]
   · rfl
 
-/-- the buffers of `n` pushes: the number `r` of successful allocations, the final capacity as the
-`r`-th iterate of `capStep`, and every growth step taken at a capacity below `size + n` -/
-theorem pushAll_chain {cmp : Nat → Nat → Int} (tp : Spec.TotalPreorder cmp) (grow : Nat → Nat) :
-    ∀ (xs : List Nat) (q : PQueue) (m : Mem), Inv' cmp q → q.triple = .conf → 0 < m.live →
-    ∃ r, (pushAll cmp grow q xs m).2.nalloc = m.nalloc + r ∧
+/-- the buffers of `n` pushes: the number `r` of successful allocations on the queue's triple, the
+final capacity as the `r`-th iterate of `capStep`, and every growth step taken at a capacity below
+`size + n` -/
+theorem pushAll_chain {cmp : Nat → Nat → Int} (tp : Spec.TotalPreorder cmp) (grow : Nat → Nat) (t : Triple) :
+    ∀ (xs : List Nat) (q : PQueue) (m : Mem), Inv' cmp q → q.triple = t → 0 < m.liveT t →
+    ∃ r, (pushAll cmp grow q xs m).2.allocsT t = m.allocsT t + r ∧
       (pushAll cmp grow q xs m).1.capacity = capIter (capStep grow) r q.capacity ∧
       (∀ j, j < r → capIter (capStep grow) j q.capacity < q.size + xs.length) ∧
       Inv' cmp (pushAll cmp grow q xs m).1 := by
@@ -50,7 +51,7 @@ theorem pushAll_chain {cmp : Nat → Nat → Int} (tp : Spec.TotalPreorder cmp) 
     have hm := push_mem tp grow q x m h hl'
     rw [ht] at hm
     have hsp := push_spec tp grow q x m h hl'
-    have ht' : (push cmp grow q x m).2.1.triple = .conf := by rw [push_triple, ht]
+    have ht' : (push cmp grow q x m).2.1.triple = t := by rw [push_triple, ht]
     have hinv' : Inv' cmp (push cmp grow q x m).2.1 := by
       rcases hsp with ⟨_, e, _⟩ | ⟨_, e⟩
       · exact e
@@ -59,14 +60,13 @@ theorem pushAll_chain {cmp : Nat → Nat → Int} (tp : Spec.TotalPreorder cmp) 
       rcases hsp with ⟨_, _, _, e⟩ | ⟨_, e⟩
       · omega
       · rw [e]; omega
-    have hlive : 0 < (push cmp grow q x m).2.2.live := by
-      have := hm.1; simp only [Mem.liveT_conf] at this; rw [this]; exact hl
-    obtain ⟨r, i1, i2, i3, i4⟩ := ih (push cmp grow q x m).2.1 (push cmp grow q x m).2.2 hinv' ht' hlive
-    rcases push_counts tp grow q x m h ht hl with ⟨_, k1, k2⟩ | ⟨_, kfull, _, k1, _, k3⟩ | ⟨_, _, _, k1, _, k3⟩
-    · have hn : (push cmp grow q x m).2.2.nalloc = m.nalloc := by rw [k1]
+    obtain ⟨r, i1, i2, i3, i4⟩ := ih (push cmp grow q x m).2.1 (push cmp grow q x m).2.2 hinv' ht' (by rw [hm.1]; exact hl)
+    rcases push_counts tp grow q x m h hl' with ⟨_, k1, k2⟩ | ⟨_, kfull, _, k1, _, k3⟩ | ⟨_, _, _, k1, _, k3⟩
+    · have hn : (push cmp grow q x m).2.2.allocsT t = m.allocsT t := by rw [k1]
       rw [hn] at i1; rw [k2] at i2 i3
       exact ⟨r, i1, i2, fun j hj => by have := i3 j hj; omega, i4⟩
-    · rw [k1] at i1
+    · rw [ht] at k1
+      rw [k1] at i1
       rw [k3, newCapacity_eq_capStep cmp grow q h] at i2 i3
       refine ⟨r + 1, by omega, i2, fun j hj => ?_, i4⟩
       cases j with
@@ -74,6 +74,7 @@ theorem pushAll_chain {cmp : Nat → Nat → Int} (tp : Spec.TotalPreorder cmp) 
       | succ j => simp only [capIter]; have := i3 j (by omega); omega
     · have hcap : (push cmp grow q x m).2.1.capacity = q.capacity := by rw [k3]
       have hsz : (push cmp grow q x m).2.1.size = q.size := by rw [k3]
+      rw [ht] at k1
       rw [k1] at i1; rw [hcap] at i2 i3; rw [hsz] at i3
       exact ⟨r, i1, i2, fun j hj => by have := i3 j hj; omega, i4⟩
 
@@ -156,13 +157,13 @@ theorem capStep_ge (grow : Nat → Nat) (k c : Nat) (h : c + c / k ≤ grow c) :
 /-- **re-allocation bound for every expansion factor > 1**: if the growth function multiplies every
 capacity below `size + n` by at least `1 + 1/k` (`c + c / k ≤ grow c`; nothing is assumed where the
 product makes no progress — the library then falls back to `capacity + 1`), then pushing any `n`
-elements performs at most `2k · (log2 (size + n) + 2)` successful buffer allocations, for every
-refusal schedule -/
+elements performs at most `2k · (log2 (size + n) + 2)` successful buffer allocations on the queue's
+own triple, for every refusal schedule -/
 theorem pushAll_realloc_geometric {cmp : Nat → Nat → Int} (tp : Spec.TotalPreorder cmp) (grow : Nat → Nat)
-    (k : Nat) (hk : 1 ≤ k) (q : PQueue) (xs : List Nat) (m : Mem) (h : Inv' cmp q) (ht : q.triple = .conf)
-    (hl : 0 < m.live) (hd : ∀ c, c < q.size + xs.length → c + c / k ≤ grow c) :
-    (pushAll cmp grow q xs m).2.nalloc - m.nalloc ≤ 2 * k * (Nat.log2 (q.size + xs.length) + 2) := by
-  obtain ⟨r, h1, _, h3, _⟩ := pushAll_chain tp grow xs q m h ht hl
+    (k : Nat) (hk : 1 ≤ k) (q : PQueue) (xs : List Nat) (m : Mem) (h : Inv' cmp q)
+    (hl : 0 < m.liveT q.triple) (hd : ∀ c, c < q.size + xs.length → c + c / k ≤ grow c) :
+    (pushAll cmp grow q xs m).2.allocsT q.triple - m.allocsT q.triple ≤ 2 * k * (Nat.log2 (q.size + xs.length) + 2) := by
+  obtain ⟨r, h1, _, h3, _⟩ := pushAll_chain tp grow q.triple xs q m h rfl hl
   have := capIter_count (capStep grow) (q.size + xs.length) k hk
     (fun c hc => capStep_ge grow k c (hd c hc)) q.capacity r h.1.2.2.1 h3
   omega
